@@ -25,7 +25,7 @@ func childMain(backend, dir, historyFile string) {
 	if err := json.Unmarshal(b, &lines); err != nil {
 		panic(err)
 	}
-	im := &Impl{backend: backend, root: filepath.Dir(dir), dir: dir, files: map[string]string{}}
+	im := &Impl{backend: backend, root: filepath.Dir(dir), dir: dir, files: map[string]string{}, raw: true}
 	im.open()
 	w := bufio.NewWriter(os.Stdout)
 	fmt.Fprintln(w, "ready")
